@@ -369,6 +369,22 @@ func (h *histState) step(op string) string {
 		}
 		a, b, kept, rm := h.al.RemoveGapSites(parseFrac(f[1]), atob(f[2]))
 		return fmt.Sprintf("ok[%d,%d,%s,%s]", a, b, strings.ReplaceAll(encInts(kept), ",", "+"), strings.ReplaceAll(encInts(rm), ",", "+"))
+	case "rmcharsites":
+		if h.al == nil {
+			return "na"
+		}
+		set := []uint8{}
+		if f[1] != "_" {
+			set = []uint8(pctDec(f[1]))
+		}
+		a, b, kept, rm := h.al.RemoveCharacterSites(set, parseFrac(f[2]), atob(f[3]), atob(f[4]), atob(f[5]), atob(f[6]), atob(f[7]))
+		return fmt.Sprintf("ok[%d,%d,%s,%s]", a, b, strings.ReplaceAll(encInts(kept), ",", "+"), strings.ReplaceAll(encInts(rm), ",", "+"))
+	case "rmmajsites":
+		if h.al == nil {
+			return "na"
+		}
+		a, b, kept, rm := h.al.RemoveMajorityCharacterSites(parseFrac(f[1]), atob(f[2]), atob(f[3]), atob(f[4]))
+		return fmt.Sprintf("ok[%d,%d,%s,%s]", a, b, strings.ReplaceAll(encInts(kept), ",", "+"), strings.ReplaceAll(encInts(rm), ",", "+"))
 	case "translate":
 		return errs(h.sb.Translate(atoi(f[1]), atoi(f[2])))
 	case "clone":
@@ -412,6 +428,19 @@ func (h *histState) step(op string) string {
 		return "ok"
 	case "replace":
 		return errs(h.sb.Replace(f[1], f[2], false))
+	case "replacere":
+		// regexp is an external: the value of ReplaceAllString for the sequence of every row, in order, is computed here
+		// (before the call) and handed to the model in the status (`{=s1=s2...}`, `{!}` when the expression does not compile)
+		re, repl := pctDec(f[1]), pctDec(f[2])
+		ext := "!"
+		if r, cerr := regexp.Compile(re); cerr == nil {
+			ext = ""
+			h.sb.IterateChar(func(name string, s []uint8) bool {
+				ext += "=" + pctEnc(r.ReplaceAllString(string(s), repl))
+				return false
+			})
+		}
+		return errs(h.sb.Replace(re, repl, true)) + "{" + ext + "}"
 	case "setchar":
 		return errs(h.sb.SetSequenceChar(atoi(f[1]), atoi(f[2]), f[3][0]))
 	case "replacechar":
